@@ -27,10 +27,10 @@ SIM = "deterministic simulation with fault injection: seeded search over task sc
 
 CHECKS = [
     wire("C02", "exploration",
-         "Seeded random/PCT schedules of the real Broker and Connection tasks with 2-4 scripted wire-level clients (versions 1.14-1.20) issuing overlapping calls, replies (owner, non-owner, duplicate, after abort), aborts, destruction and disconnects in five ways; 96 directed call scenarios (owner version x caller version x owner's fate x abort timing) run first in every batch; every broker step is compared with a sequential reference model (pending-call tables in all three places) and every client's received stream must equal the model's (exactly one reply per accepted call, right content, right serial; nothing from non-owners).",
+         "Seeded random/PCT schedules of the real Broker and Connection tasks with 2-4 scripted wire-level clients (versions 1.14-1.20) issuing overlapping calls, replies (owner, non-owner, duplicate, after abort), aborts, destruction and disconnects in five ways; 96 directed call scenarios (owner version x caller version x owner's fate x abort timing) run first in every batch; every broker step is compared with a sequential reference model (pending-call tables in all three places) and every client's received stream must equal the model's (exactly one reply per accepted call, right content, right serial; nothing from non-owners). Every 4th run is an API-level run with 2-4 real clients running call-heavy programs (calls awaited/dropped/cancelled against server tasks that answer, fail, abort or drop while services, proxies and objects go away) under the same broker model plus the client-side oracles (reply value, no hang at quiescence, no client error or panic).",
          "DESIGN.md section 5 C02", SIM + "lock-step refinement check against a reference model of the bus"),
     wire("C03", "exploration",
-         "Same harness, workload biased to create/destroy of objects and services over 3x3 UUID pools with own/foreign/stale/never-issued cookies, queries and disconnects; registry state (both indexes, ownership, containment) equals the model after every broker step, every reply equals the model's, cookies are never reused.",
+         "Same harness, workload biased to create/destroy of objects and services over 3x3 UUID pools with own/foreign/stale/never-issued cookies, queries and disconnects; registry state (both indexes, ownership, containment) equals the model after every broker step, every reply equals the model's, cookies are never reused. Every 4th run is an API-level run with 2-4 real clients churning objects and services through the client library (create/destroy/drop/re-create under pool UUIDs, with calls, find_object and discoverers as observers) under the same broker model plus the client-side oracles (no client error, panic or hang).",
          "DESIGN.md section 5 C03", SIM + "lock-step refinement check against a reference model of the registry"),
     wire("C04", "exploration",
          "Same harness, workload biased to subscribe/unsubscribe/subscribe-all/emit/destroy/disconnect; fan-out set, 0<->1 notifications to the owner (also on subscriber removal) and ServiceDestroyed notifications must equal the model; both subscription mirrors in the broker must agree with it after every step. Every 4th run is an API-level run with real clients: EventRound programs (1-3 proxies per task with random subscribe/subscribe-all/unsubscribe histories, owner emits a bracketed burst of uniquely numbered events) whose proxies must receive exactly the events their final subscription state implies, in order (covers the owner client's emit filter and the per-client proxy fan-out).",
